@@ -210,6 +210,12 @@ def run_c08(ctx):
     ops = ["sort_points", "sort_cells", "strip", "sort", "extend", "merge_split"]
     for _ in range(n2):
         M = G.add_fields(rng, G.gen_mesh(rng), kinds=("scalar", "vector", "int", "tensor"))
+        if rng.random() < 0.3:
+            # field names that themselves contain the annotation separator: "flux @ face" and "flux @ center" are two fields
+            val_ = lambda: Fr(rng.randint(-1000, 1000), 8)  # noqa: E731
+            M["cf"]["flux @ face"] = {t: [val_() for _ in rows] for t, rows in M["blocks"]}
+            M["cf"]["flux @ center"] = {t: [val_() for _ in rows] for t, rows in M["blocks"]}
+            M["pf"]["q @ node"] = [val_() for _ in M["pts"]]
         if rng.random() < 0.5:
             # integer vector / tensor fields whose entries need all 64 bits (a detour through float64 would change them)
             iv = lambda: rng.choice([2 ** 53 + 1, -(2 ** 53) - 3, 2 ** 62 + 5, 7, -1])  # noqa: E731
@@ -311,6 +317,7 @@ def run_c08(ctx):
                           applied=applied)
         ctx.traces_validated += 1
     merge_partial_fields_stream(ctx, 150 if q else 4000, merge)
+    merge_narrow_index_stream(ctx, 10 if q else 200, merge)
     vals = ctx.coq_eval(HEADER, exprs, name="c08chk")
     for (kind, canon, pmap), v in zip(metas, vals):
         ctx.tie(f"T3 {kind}")
@@ -467,6 +474,44 @@ def merge_partial_fields_stream(ctx, n, merge):
         ctx.tie("T2 merge with differing point-field sets = zero-fill specification")
         if bad:
             ctx.violation("E4", "merge of pieces with different point-field sets: " + bad, canon, only_in_first=only1, only_in_second=only2)
+        ctx.traces_validated += 1
+
+
+def merge_narrow_index_stream(ctx, n, merge):
+    """two polyline pieces whose connectivity is stored in a narrow integer type (each piece is small enough for it, the merged
+    point count is not): the merged cells still connect the same coordinates"""
+    from fieldcompare.mesh import Mesh, MeshFields, CellTypes
+    rng = ctx.rng
+    for _ in range(n):
+        dt = rng.choice(["int8", "uint8"])
+        cap = 127 if dt == "int8" else 255
+        n1, n2 = rng.randint(cap // 2 + 10, cap), rng.randint(20, cap)
+        shared = rng.random() < 0.5
+        p1 = [[float(i), 0.0] for i in range(n1)]
+        p2 = [[float(n1 - 1 + i) if shared else float(n1 + 5 + i), 0.0 if shared and i == 0 else 1.0] for i in range(n2)]
+        canon = {"narrow_index_merge": {"dtype": dt, "points": [n1, n2], "pieces_share_a_point": shared}}
+        try:
+            with quiet():
+                warnings.simplefilter("ignore")
+                a = MeshFields(Mesh(np.array(p1), [(CellTypes.line, np.array([[i, i + 1] for i in range(n1 - 1)], dtype=dt))]),
+                               {"u": np.arange(float(n1))}, {"c": [np.arange(float(n1 - 1))]})
+                b = MeshFields(Mesh(np.array(p2), [(CellTypes.line, np.array([[i, i + 1] for i in range(n2 - 1)], dtype=dt))]),
+                               {"u": 1000.0 + np.arange(float(n2))}, {"c": [1000.0 + np.arange(float(n2 - 1))]})
+                m = merge(a, b)
+                P = np.asarray(m.domain.points)
+                conn = np.asarray(m.domain.connectivity(CellTypes.line))
+                got = sorted(tuple(sorted(tuple(P[int(c)]) for c in row)) for row in conn)
+        except Exception as e:  # noqa: BLE001
+            ctx.case(canon, True)
+            ctx.violation("E4", f"merge of pieces with {dt} connectivity raised / gave unusable indices: {type(e).__name__}: {e}", canon)
+            continue
+        want = sorted([tuple(sorted((tuple(p1[i]), tuple(p1[i + 1])))) for i in range(n1 - 1)]
+                      + [tuple(sorted((tuple(p2[i]), tuple(p2[i + 1])))) for i in range(n2 - 1)])
+        ctx.case(canon, True, sample=canon)
+        ctx.count(f"c08 merge, {dt} connectivity")
+        if got != want:
+            ctx.violation("E4", f"merge of pieces with {dt} connectivity: the merged cells do not connect the same coordinates "
+                                f"(largest corner index {int(conn.max())}, {len(P)} merged points)", canon)
         ctx.traces_validated += 1
 
 
